@@ -1828,6 +1828,9 @@ class Tensor(object):
             m = 2
 
         if factor is None:
+            if self.dim() == 1 and self.cores[0].dim() == m:
+                # A 1-D CP tensor is the sum of its columns (keeps the outer TT ranks at 1)
+                self.cores[0] = self.cores[0].sum(dim=-1, keepdim=True)
             if self.cores[0].dim() == m:
                 if self.batch:
                     self.cores[0] = self.cores[0][:, None, ...]
